@@ -30,10 +30,13 @@ def exec_job(job):
     fn = job["fn"]
     dr, conn, latt, mask, signed = VARIANTS[fn]
     R0 = np.array(job["R0"], dtype=float)
+    if job.get("dtype") == "int":          # callers also pass integer adjacency matrices
+        R0 = R0.astype(int)
     n = len(R0)
     rec = dict(fn=fn, prop=job["prop"], n=n, dir=dr, conn=conn, latt=latt, mask=mask, signed=signed,
                R0=encode.mat_int(R0), D=encode.mat_int(job["D"]) if job.get("D") else [],
-               B=encode.mat_int(job["B"]) if job.get("B") else encode.mat_int(np.zeros((n, n))),
+               B=encode.mat_int((np.array(job["B"]) != 0).astype(int)) if job.get("B")
+               else encode.mat_int(np.zeros((n, n))),
                raised="", malformed="", events=[], out=[], eff_out=-1, Rrp=[], ind_rp=[],
                zero_requested=0, expect_eff=-1, expect_R=[], script_status="none")
     events = []
